@@ -1,5 +1,6 @@
 import GrinVerif.Drv.Common
 import GrinVerif.Model.Crash
+import GrinVerif.Model.CrashCompact
 /-! Driver glue for the `crash` domain (C09): the real step labels of a scenario are interpreted
 as model steps, the durable state at each crash point is computed by the model and `recover`
 predicts how the node reopens. -/
@@ -89,6 +90,23 @@ def predict (st : St) (sc : Scn) (n : Nat) : Option String := do
   | .openFail why => pure s!"open=err:{why.toString}"
   | .ok h => pure s!"open=ok head=b{h}"
 
+/-- block acceptance on a node that has just been compacted (scenario compaction-then-block) -/
+def predictCompacted (st : St) (sc : Scn) (n : Nat) : Option String := do
+  let input ← sc.input
+  let oldPath ← pathOf st.tbl (st.tbl.length + 1) sc.oldHead []
+  let newPath ← pathOf st.tbl (st.tbl.length + 1) input []
+  let b ← st.tbl.find? (·.id == input)
+  let oldWork := ((st.tbl.find? (·.id == sc.oldHead)).map (·.work)).getD 0
+  let moves := b.work > oldWork
+  let t : Target := { newPath, forkLen := commonPrefixLen oldPath newPath, movesHHead := moves,
+                      movesHead := moves && sc.kind == "block" }
+  let hh := oldPath.length - 1
+  let start := consistentC oldPath (prunedAt oldPath (hh - 20)) (compactTail hh 20 20 10)
+  let base := (stepsOfLabels sc.labels n).foldl (applyStep t) start.base
+  match recoverC (fun h => decide (h ≥ 6)) st.tbl { start with base := base } with
+  | .openFail why => pure s!"open=err:{why.toString}"
+  | .ok h => pure s!"open=ok head=b{h}"
+
 /-- compare on the reopen class and head only -/
 def implClass (impl : String) : String :=
   match splitWs impl with
@@ -115,7 +133,17 @@ def handle (st : St) (args : List String) (impl : String) : St × Verdict :=
   | ["case", name, n, _label] =>
     match st.scns.find? (·.name == name), n.toNat? with
     | some sc, some n =>
-      if sc.kind == "compact" || name.startsWith "compaction" then (st, .ok)  -- not modelled (stated)
+      if sc.kind == "compact" then
+        -- compaction model (Model/CrashCompact.lean); AutomatedTesting: horizon 20, state sync
+        -- threshold 20, archive interval 10
+        match pathOf st.tbl (st.tbl.length + 1) sc.oldHead [] with
+        | some oldPath =>
+          (st, cmpModel (predictCompact (fun h => decide (h ≥ 6)) st.tbl oldPath 20 20 10 sc.labels n) (implClass impl))
+        | none => (st, .unknown)
+      else if name.startsWith "compaction" then
+        match predictCompacted st sc n with
+        | some m => (st, cmpModel m (implClass impl))
+        | none => (st, .unknown)
       else match predict st sc n with
         | some m => (st, cmpModel m (implClass impl))
         | none => (st, .unknown)
